@@ -925,6 +925,34 @@ fn parser_steps(g: &mut Gen) -> Vec<Value> {
     let via = g.pick(&["json", "slice", "reader"]);
     steps.push(json!({"op": "parse", "via": via, "b": bytes_json(&b)}));
   }
+  // a dictionary of what tools put around JSON documents: XSSI guards,
+  // byte order marks, comments, padding - alone, before a document, and
+  // with or without a line end
+  let wrappers: &[&[u8]] = &[
+    b")]}'", b")]}'\n", b")]}',\n", b")]}'\r", b"\xEF\xBB\xBF", b"\xFF\xFE", b"while(1);", b"for(;;);",
+    b"//", b"// x\n", b"/*", b"/**/", b"#", b"\n", b"\r\n", b" ", b"\t", b"\0", b"callback(", b"{}&&",
+  ];
+  for _ in 0..3 {
+    let w = wrappers[g.rng.gen_range(0..wrappers.len())];
+    let doc = valid[g.rng.gen_range(0..valid.len())].as_bytes();
+    let mut b: Vec<u8> = w.to_vec();
+    match g.rng.gen_range(0..5) {
+      0 => {}
+      1 => b.extend_from_slice(doc),
+      2 => {
+        b.extend_from_slice(b"\n");
+        b.extend_from_slice(doc);
+      }
+      3 => {
+        let mut d = doc.to_vec();
+        d.extend_from_slice(w);
+        b = d;
+      }
+      _ => b.extend((0..g.rng.gen_range(0..6)).map(|_| g.rng.gen::<u8>())),
+    }
+    let via = g.pick(&["json", "slice", "reader"]);
+    steps.push(json!({"op": "parse", "via": via, "b": bytes_json(&b)}));
+  }
   steps
 }
 
